@@ -368,13 +368,15 @@ pub struct Session {
 	pub fix: Fixture,
 	pub ws: WsPeer,
 	pub sentinel: u64,
+	/// Some(c): WebSocket messages of this session go out as two frames, cut at a place chosen by c
+	pub frag: Option<u16>,
 }
 
 impl Session {
 	pub async fn new(cfg: Cfg) -> Session {
 		let fix = Fixture::new(cfg);
 		let ws = fix.ws_e().await.expect("ws handshake");
-		Session { fix, ws, sentinel: 0 }
+		Session { fix, ws, sentinel: 0, frag: None }
 	}
 }
 
@@ -418,7 +420,22 @@ pub async fn check_message(s: &mut Session, bytes: &[u8], prefer_text: bool, obs
 	let http_log = s.fix.ctx.log_since(log0);
 	// ---- WS
 	let log1 = s.fix.ctx.log_len();
-	if let Err(e) = s.ws.send_bytes(bytes, prefer_text).await {
+	let sent = match s.frag {
+		Some(c) if bytes.len() >= 2 => {
+			let text = prefer_text && std::str::from_utf8(bytes).is_ok();
+			let mut cut = 1 + pick_idx(c, bytes.len() - 1);
+			if text {
+				// (a text message is cut between characters)
+				let st = std::str::from_utf8(bytes).unwrap();
+				while cut > 0 && !st.is_char_boundary(cut) {
+					cut -= 1;
+				}
+			}
+			if cut == 0 { s.ws.send_bytes(bytes, prefer_text).await } else { s.ws.send_fragmented(bytes, text, &[cut]).await }
+		}
+		_ => s.ws.send_bytes(bytes, prefer_text).await,
+	};
+	if let Err(e) = sent {
 		obs.fail("c01/ws-send-failed", format!("{e}: {}", shown()));
 		return label;
 	}
@@ -586,6 +603,9 @@ pub struct MsgsCase {
 	/// 0 = TowerService, 1 = low-level entry points, 2 = TowerService built through set_http_middleware
 	#[serde(default)]
 	pub entry: u8,
+	/// the WebSocket copies of the messages are sent as two frames each
+	#[serde(default)]
+	pub frag: Option<u16>,
 }
 
 pub struct Messages;
@@ -595,9 +615,17 @@ pub fn run_bytes_session(list: &[Vec<u8>], binary: bool, obs: &mut Obs) {
 }
 
 pub fn run_bytes_session_on(list: &[Vec<u8>], binary: bool, entry: u8, obs: &mut Obs) {
+	run_bytes_session_frag(list, binary, entry, None, obs)
+}
+
+pub fn run_bytes_session_frag(list: &[Vec<u8>], binary: bool, entry: u8, frag: Option<u16>, obs: &mut Obs) {
 	let rt = rt();
 	rt.block_on(async {
 		let mut s = Session::new(Cfg { entry: if entry == 1 { 1 } else { 0 }, via_set_http_middleware: entry == 2, ..Cfg::default() }).await;
+		s.frag = frag;
+		if frag.is_some() {
+			obs.class("ws-messages-in-two-frames");
+		}
 		obs.class(match entry {
 			1 => "entry:low-level",
 			2 => "entry:set_http_middleware",
@@ -628,7 +656,7 @@ impl SubCheck for Messages {
 	}
 	fn strategy(&self, tier: Tier) -> BoxedStrategy<MsgsCase> {
 		let d = tier.pick(3, 6);
-		(proptest::collection::vec(arb_msg(d), 1..6), any::<bool>(), prop_oneof![6 => Just(0u8), 3 => Just(1u8), 1 => Just(2u8)]).prop_map(|(msgs, binary, entry)| MsgsCase { msgs, binary, entry }).boxed()
+		(proptest::collection::vec(arb_msg(d), 1..6), any::<bool>(), prop_oneof![6 => Just(0u8), 3 => Just(1u8), 1 => Just(2u8)], proptest::option::weighted(0.2, any::<u16>())).prop_map(|(msgs, binary, entry, frag)| MsgsCase { msgs, binary, entry, frag }).boxed()
 	}
 	fn run(&self, case: &MsgsCase, obs: &mut Obs) {
 		let list: Vec<Vec<u8>> = case.msgs.iter().map(render_msg).collect();
@@ -645,7 +673,7 @@ impl SubCheck for Messages {
 			}
 		}
 		obs.sample(json!({"messages": list.iter().map(|b| String::from_utf8_lossy(b).to_string()).collect::<Vec<_>>(), "binary": case.binary}));
-		run_bytes_session_on(&list, case.binary, case.entry, obs);
+		run_bytes_session_frag(&list, case.binary, case.entry, case.frag, obs);
 	}
 }
 
@@ -784,7 +812,7 @@ pub fn corpus_replay(ctx: &mut Ctx) {
 	}
 	let n = list.len() as u64;
 	for chunk in list.chunks(32) {
-		let case = MsgsCase { msgs: chunk.iter().map(|b| Msg::Bytes(b.clone())).collect(), binary: true, entry: 0 };
+		let case = MsgsCase { msgs: chunk.iter().map(|b| Msg::Bytes(b.clone())).collect(), binary: true, entry: 0, frag: None };
 		ctx.run_case(&Messages, &case);
 	}
 	ctx.note_class("corpus-files", n);
